@@ -34,6 +34,7 @@ type seqGen struct {
 	bounded  bool
 	weighted bool
 	giant    bool
+	wide     bool
 	max      int
 	deferred bool
 	clock    int64
@@ -352,6 +353,26 @@ func (g *seqGen) staleLoad() {
 	g.add("get %d", k)
 }
 
+// foreverThenFinite: an entry whose deadline is exactly "never" (the saturated MaxInt64) gets a finite lifetime, the clock
+// passes it and maintenance runs: the entry is swept and reported like any other (C13, C06)
+func (g *seqGen) foreverThenFinite() {
+	k := g.key()
+	g.add("set %d %d", k, g.val())
+	g.add("expafter %d %d", k, int64(math.MaxInt64)-int64(g.r.intn(2)))
+	if g.r.chance(0.5) {
+		g.add("get %d", k)
+	}
+	d := g.unit * int64(1+g.r.intn(4))
+	g.add("expafter %d %d", k, d)
+	adv := d + (1 << 31) + int64(g.r.intn(1000))
+	if g.clock > math.MaxInt64-adv-(1<<41) {
+		return
+	}
+	g.clock += adv
+	g.add("adv %d", adv)
+	g.add("cleanup")
+}
+
 // quietRefresh: an explicit refresh (failing, not-found or successful) of an entry some time after its last access, then a
 // look at the entry's deadlines: Refresh is not a read (C11: a failed reload leaves the entry and its expiry untouched; C12)
 func (g *seqGen) quietRefresh() {
@@ -374,8 +395,56 @@ func (g *seqGen) quietRefresh() {
 	g.add("qentry %d", k)
 }
 
+// wideBulk: one bulk load of a hundred or more keys (the table of in-flight calls outgrows its buckets), during which many
+// of the keys are written or invalidated: none of those writes may be replaced by the load's result (C09), the others are
+// installed (C10)
+func (g *seqGen) wideBulk() {
+	r := g.r
+	n := 90 + r.intn(90)
+	base := 1000 + r.intn(3)*500
+	var ks []int
+	var ss, kv []string
+	for i := 0; i < n; i++ {
+		ks = append(ks, base+i)
+	}
+	for i := n - 1; i > 0; i-- {
+		j := r.intn(i + 1)
+		ks[i], ks[j] = ks[j], ks[i]
+	}
+	for _, k := range ks {
+		ss = append(ss, fmt.Sprint(k))
+		kv = append(kv, fmt.Sprintf("%d=%d", k, g.val()))
+	}
+	var ops, after []string
+	for i := 0; i < n/2; i++ {
+		k := pick(r, ks)
+		switch r.intn(4) {
+		case 0, 1:
+			ops = append(ops, fmt.Sprintf("set %d %d", k, g.val()))
+		case 2:
+			ops = append(ops, fmt.Sprintf("inval %d", k))
+		default:
+			ops = append(ops, fmt.Sprintf("compute %d w%d w%d", k, g.val(), g.val()))
+		}
+		after = append(after, fmt.Sprintf("get %d", k))
+	}
+	oc := "ok:" + strings.Join(kv, ",")
+	g.add("bulkget %s %s/%s { %s }", strings.Join(ss, ","), oc, oc, strings.Join(ops, " ; "))
+	for _, a := range after {
+		g.add("%s", a)
+	}
+	for _, k := range ks {
+		g.add("inval %d", k)
+	}
+}
+
 func (g *seqGen) loaderOp() {
 	r := g.r
+	if g.profile == "load" && !g.bounded && !g.avoidK1 && !g.deferred && !g.wide && r.chance(0.03) {
+		g.wide = true
+		g.wideBulk()
+		return
+	}
 	if g.withExp && !g.avoidK1 && r.chance(0.12) {
 		g.staleLoad()
 		return
@@ -591,8 +660,18 @@ func genSeqScript(seed uint64, profile string) []string {
 				g.saved[slot] = true
 			}
 		default:
-			g.add("%s", g.simpleOp(false, 0))
+			if profile == "huge" && g.withExp && r.chance(0.05) {
+				g.foreverThenFinite()
+			} else {
+				g.add("%s", g.simpleOp(false, 0))
+			}
 		}
+	}
+	if expiry != "none" && !g.deferred && g.clock < math.MaxInt64-(1<<40) {
+		// C06 "values written = values present + values reported": three further maintenance runs, two timer ticks apart -
+		// after them every value whose deadline has passed has been reported
+		g.add("settle")
+		g.clock += 3 << 31
 	}
 	g.audit()
 	return g.lines
